@@ -1014,9 +1014,15 @@ def _save_data_3(data, context):
 def _load_data_3(rec, context):
     result = _load_data_2(rec, context)
     yield result
-    # Protocol 3 stored a single component ID for each side of a join, whereas
-    # joins are now defined by tuples of component IDs
-    result._key_joins = dict((context.object(k), ((context.object(v0),), (context.object(v1),)))
+
+    def load_cid_tuple(ref):
+        # Protocol 3 stored a single reference for each side of a join: to one
+        # component ID at the time, whereas joins are now defined by tuples of
+        # component IDs
+        cids = context.object(ref)
+        return cids if isinstance(cids, tuple) else (cids,)
+
+    result._key_joins = dict((context.object(k), (load_cid_tuple(v0), load_cid_tuple(v1)))
                              for k, v0, v1 in rec['_key_joins'])
 
 
